@@ -180,11 +180,14 @@ class AnfTransformer(transformer.Base):
     if isinstance(node, ast.keyword):
       node.value = self._ensure_node_in_anf(parent, field, node.value)
       return node
-    if isinstance(node, (ast.Starred, ast.withitem, ast.slice)):
+    if (isinstance(node, (ast.Starred, ast.withitem, ast.Slice)) or
+        (isinstance(node, ast.Tuple) and
+         any(isinstance(e, ast.Slice) for e in node.elts))):
       # These nodes aren't really extractable in their own right, but their
       # subnodes might be.  Propagate the parent and field name to the child
       # nodes, instead of querying the configuration for children of, e.g.,
-      # ast.Starred.
+      # ast.Starred.  (A slice, or the tuple of an extended slice `a[i, j:k]`,
+      # is not an expression that can stand on the right of an assignment.)
       return self._ensure_fields_in_anf(node, parent, field)
     if self._should_transform(parent, field, node):
       return self._do_transform_node(node)
